@@ -217,6 +217,8 @@ class Run:
         self.notes += r.get('notes', [])
         if self.exhaustive is None: self.exhaustive = r.get('exhaustive', False)
         else: self.exhaustive = self.exhaustive and r.get('exhaustive', False)
+        for h in r.get('harness_errors', []):
+            self.fails.append(dict(kind='harness', binary=binary, flavour=flavour, key='harness/' + h[:80], msg=h))
         for f in r.get('fails', []):
             self.fails.append(dict(kind='engine', binary=binary, flavour=flavour, check=f['check'], case=f['case'], msg=f['msg'], key='%s/%s' % (f['check'], f['case'])))
 
